@@ -443,12 +443,12 @@ def run(c):
 
     # ------------------------------------------------------------------ stream M4: locate
     loc_fail = 0; loc_n = 0
-    for iloc in boxed('loc', range(6 if quick else 60), 3):
+    for iloc in boxed('loc', range(6 if quick else 60), 2):
         shape = [R['loc'].choice([1, 2, 3]) for _ in range(R['loc'].choice([1, 2]))]
         npts = R['loc'].choice([1, 2, 3, 5])
         mode = R['loc'].choice(['inside', 'inside', 'missing-raise', 'missing-skip'])
         if iloc < 3:      # corpus: many points (every worker gets some), one case per mode
-            shape = [2, 2]; npts = 6; mode = ['inside', 'missing-skip', 'missing-raise'][iloc]
+            shape = [2, 2]; npts = 5; mode = ['missing-raise', 'inside', 'missing-skip'][iloc]
         topo, geom = mesh.rectilinear([numpy.arange(k + 1) * 1. for k in shape])
         # a non-affine geometry, so that StructuredTopology._locate does not take its affine shortcut but the generic Newton search
         # of Topology._locate (every point's computation is independent of the process that performs it: results are bit-identical)
@@ -457,9 +457,9 @@ def run(c):
             cand = topo.sample('uniform', 3).eval(g)
         pts = numpy.array([cand[R['loc'].randrange(len(cand))] for _ in range(npts)])
         if mode != 'inside':
-            # corpus case 2: only the very first point is missing, so that it is (almost surely) claimed by a child, which the parent
+            # corpus case 0: only the very first point is missing, so that it is (almost surely) claimed by a child, which the parent
             # is still busy forking the others: the outcome must nevertheless be the serial one (LocateError naming that point)
-            for r_ in ([0] if iloc == 2 else R['loc'].sample(range(npts), R['loc'].randint(1, min(2, npts)))):
+            for r_ in ([0] if iloc == 0 else R['loc'].sample(range(npts), R['loc'].randint(1, min(2, npts)))):
                 pts[r_, 0] = 100. + r_
         def locate():
             smp = topo.locate(g, pts, tol=1e-9, skip_missing=(mode == 'missing-skip'))
@@ -471,7 +471,7 @@ def run(c):
                 except Exception as e:
                     return ('exception', type(e).__name__, str(e)[:200])
         ref = outcome(1)
-        nprocs = R['loc'].choice([2, 3, 4, 8]) if iloc >= 3 else [4, 3, 8][iloc]
+        nprocs = R['loc'].choice([2, 3, 4, 8]) if iloc >= 3 else [8, 4, 3][iloc]
         got = outcome(nprocs)
         loc_n += 1; c.case(('loc', tuple(shape), pts.tobytes(), mode, nprocs), nontrivial=npts >= 2); c.count('locate:' + mode)
         if got != ref:
